@@ -1217,7 +1217,10 @@ impl<'a> Interp<'a> {
             Stmt::Goto(l) => Ok(Flow::Goto(l.clone())),
             Stmt::Labeled(_, s) => self.exec(s),
             Stmt::Asm(text, _) => {
-                self.trace.push(TraceEv::Asm(text.clone()));
+                // (a comment-only asm line emits nothing and is no event)
+                if !text.trim_start().starts_with(';') {
+                    self.trace.push(TraceEv::Asm(text.clone()));
+                }
                 Ok(Flow::Next)
             }
             Stmt::Load(e) => {
